@@ -119,6 +119,13 @@ func (h *H) appReuse(mult int) {
 			Replay: map[string]interface{}{"api": what + ".UnmarshalBinary(b1) then (b2) on the same value vs (b2) on a fresh value", "b1": hexs(b1), "b2": hexs(b2)},
 		})
 	}
+	keptCheck := func(what string, b1, b2 []byte, kept interface{}, keptText string) {
+		if after := deep(kept); after != keptText {
+			h.s.Fail(cases.GoFail{Key: fmt.Sprintf("kept-copy-changed:%s:%s:%s", what, hexs(b1), hexs(b2)),
+				What:   fmt.Sprintf("%s: a copy (kept := *v) of the value decoded from b1 changed when b2 was decoded into the same receiver: %s then %s", what, clip(keptText), clip(after)),
+				Replay: map[string]interface{}{"api": what + ": v.UnmarshalBinary(b1); kept := *v; v.UnmarshalBinary(b2); inspect kept", "b1": hexs(b1), "b2": hexs(b2)}})
+		}
+	}
 	fill := func(k int) []byte {
 		b := r.Bytes(k)
 		switch r.Intn(4) {
@@ -155,8 +162,11 @@ func (h *H) appReuse(mult int) {
 				if tryDec(func() error { return used.UnmarshalBinary(b1) }) != "ok" {
 					continue
 				}
+				kept := shallow(used)
+				keptText := deep(kept)
 				// variable-length payloads report their size after decoding: give them enough bytes
 				su := tryDec(func() error { return used.UnmarshalBinary(b2) })
+				keptCheck(fmt.Sprintf("%s.%T", pk.name, used), b1, b2, kept, keptText)
 				fresh := pk.payload(e.up, e.cid)
 				sf := tryDec(func() error { return fresh.UnmarshalBinary(b2) })
 				n++
@@ -189,7 +199,10 @@ func (h *H) appReuse(mult int) {
 				if tryDec(func() error { return dec(up, b1) }) != "ok" {
 					continue
 				}
+				kept := shallow(used) // for Commands: the slice header, sharing the backing array (cmds := *c)
+				keptText := deep(kept)
 				su := tryDec(func() error { return dec(up, b2) })
+				keptCheck(fmt.Sprintf("%s.%s", pk.name, []string{"Command", "Commands"}[j]), b1, b2, kept, keptText)
 				dec2, fresh := mk()
 				sf := tryDec(func() error { return dec2(up, b2) })
 				n++
